@@ -6,6 +6,8 @@ R2 FRAME: the transitive write set of null_move is within {side_to_move, en_pass
 R3: on the Some path the value is the source with side_to_move negated and en_passant = None,
    and the last mutation is the from-scratch cache recomputation (same routine as construction
    from text, so caches are equal by construction; hash equal by C08.R3).
+R5 BUILD-PARITY: the write set and the reachable crate functions of null_move are the same with and without debug
+   assertions (a recomputation inside debug_assert! would exist in test builds only).
 R4 FROM-SCRATCH (= C03.R2/R3 on update_pin_info): that routine overwrites both caches on every path and collects the
    full attacker set of the new side to move's king."""
 from .common import *
@@ -36,6 +38,8 @@ def r4(ctx):
 def run(ctx):
     bb(('unit',), ctx.an())
     r4(ctx)
+    # R5 BUILD-PARITY: what null_move writes and calls does not depend on debug assertions
+    debug_parity(ctx, 'C18.R5', [KEY])
     s = summary(ctx, KEY, 'C18.R1')
     if s is None:
         return
